@@ -26,6 +26,14 @@ def tables_named(db):
     return all(t.name is not None and t.schema is not None for t in db.tables)
 
 
+def lists_distinct(db):
+    """the five collections of a database are five different list objects"""
+    return (db.tables is not db.refs and db.tables is not db.enums and db.tables is not db.table_groups
+            and db.tables is not db.sticky_notes and db.refs is not db.enums and db.refs is not db.table_groups
+            and db.refs is not db.sticky_notes and db.enums is not db.table_groups
+            and db.enums is not db.sticky_notes and db.table_groups is not db.sticky_notes)
+
+
 def db_inv(db):
     return backptrs(db) and tables_named(db)
 
@@ -410,6 +418,9 @@ class db_init:
         # C11: every container is allocated by this call (no shared default)
         return (fresh(self.tables) and fresh(self.refs) and fresh(self.enums)
                 and fresh(self.table_groups) and fresh(self.sticky_notes))
+
+    def ensures_distinct_lists(self, sql_renderer, dbml_renderer, allow_properties, result):
+        return lists_distinct(self)
 
     def ensures_options(self, sql_renderer, dbml_renderer, allow_properties, result):
         return (self.sql_renderer is sql_renderer and self.dbml_renderer is dbml_renderer
